@@ -313,3 +313,44 @@ package orda
 //@   ensures[after-anchor]  forall j int :: 0 <= j && j < len(tts) ==> on(its.Map[keyOf(result0)]).$pos < on(its.Map[ttKey(tts[j])]).$pos
 //@   ensures[contiguous]    forall j int, m *orderedNode :: {tts[j], m.$list} 0 <= j && j < len(tts) && old(inList(its, m)) ==> !(on(its.Map[keyOf(result0)]).$pos < m.$pos && m.$pos <= on(its.Map[ttKey(tts[j])]).$pos)
 //@   modifies listSnapshot.size, map[string]orderedType, orderedNode.next, orderedNode.prev, orderedNode.$list, orderedNode.$pos, orderedNode.$key, alloc
+
+// A remote insert: the anchor is named by its identifier (pos). The batch belongs to ONE operation (all
+// its times share Era/Lamport/CUID and differ only in the delimiter, which the order ignores). Each new
+// element goes after the anchor and after exactly the run of successors whose ORDER time is newer than the
+// operation ("newest first" among concurrent siblings); the batch stays in order; nothing else moves.
+//@ pred tnAs(t timedType) = t.(as *timedNode)
+//@ pred newAt(L *listSnapshot, tts []timedType, j int) = on(L.Map[ttKey(tts[j])])
+//@ pred isNew(L *listSnapshot, n *orderedNode) = inList(L, n) && !old(inList(L, n))
+//@ func (*listSnapshot).insertRemoteWithTimedTypes
+//@   mode math nooverflow size counts the live nodes of an in-memory list
+//@   props C04 C02 C01
+//@   dispatch timedType : *timedNode
+//@   dispatch orderedType : *orderedNode
+//@   requires listWF(its) && validTS(pos) && its.size < 4611686018427387904
+//@   requires forall t in tts :: newTT(t) && !(ttKey(t) in its.Map) && tsSame(tnAs(t).T, tnAs(tts[0]).T)
+//@   requires forall a int, b int :: 0 <= a && a < b && b < len(tts) ==> ttKey(tts[a]) != ttKey(tts[b])
+//@   loop 0 invariant[link] linkWF(its)
+//@   loop 0 invariant[index] indexWF(its)
+//@   loop 0 invariant[keys] keyTie(its)
+//@   loop 0 invariant[values] valuesWF(its)
+//@   loop 0 invariant[target] target != nil && target.(*orderedNode) && inList(its, on(target)) && rangeindex + 1 <= len(tts)
+//@   loop 0 invariant[size] its.size == old(its.size) + rangeindex + 1
+//@   loop 0 invariant[never-reordered] forall n *orderedNode :: {n.$list} {old(n.$list)} old(inList(its, n)) ==> inList(its, n) && n.$pos == old(n.$pos)
+//@   loop 0 invariant[pending] forall j int :: rangeindex < j && j < len(tts) ==> !(ttKey(tts[j]) in its.Map)
+//@   loop 0 invariant[inserted] forall j int :: 0 <= j && j <= rangeindex ==> ttKey(tts[j]) in its.Map && newAt(its, tts, j).timedType == tts[j] && !old(inList(its, newAt(its, tts, j)))
+//@   loop 0 invariant[anchor] keyOf(pos) in its.Map && old(inList(its, on(its.Map[keyOf(pos)]))) && on(its.Map[keyOf(pos)]).$pos <= on(target).$pos
+//@   loop 0 invariant[new-after-anchor] forall n *orderedNode :: {n.$list} inList(its, n) && !old(inList(its, n)) ==> n.$pos <= on(target).$pos && on(its.Map[keyOf(pos)]).$pos < n.$pos
+//@   loop 0 invariant[newest-first] forall m *orderedNode :: {m.$pos} old(inList(its, m)) && on(its.Map[keyOf(pos)]).$pos < m.$pos && m.$pos <= on(target).$pos ==> tsLess(tnAs(tts[0]).T, m.O)
+//@   loop 0 invariant[stops-at-older] forall n *orderedNode :: {n.$list} inList(its, n) && !old(inList(its, n)) ==> n.next == nil || (inList(its, on(n.next)) && !old(inList(its, on(n.next)))) || !tsLess(tnAs(tts[0]).T, on(n.next).O)
+//@   loop 1 invariant[walk] target != nil && target.(*orderedNode) && inList(its, on(target)) && nextTarget == on(target).next && on(target$0).$pos <= on(target).$pos
+//@   loop 1 invariant[skipped-are-newer] forall m *orderedNode :: {m.$pos} old(inList(its, m)) && on(target$0).$pos < m.$pos && m.$pos <= on(target).$pos ==> tsLess(tnAs(tts[0]).T, m.O)
+//@   ensures[found]           (result == nil) == old(keyOf(pos) in its.Map)
+//@   ensures[wf]              result == nil ==> listWF(its)
+//@   ensures[size]            result == nil ==> its.size == old(its.size) + len(tts)
+//@   ensures[never-reordered] forall n *orderedNode :: {n.$list} {old(n.$list)} old(inList(its, n)) ==> inList(its, n) && n.$pos == old(n.$pos)
+//@   ensures[inserted-once]   result == nil ==> forall j int :: 0 <= j && j < len(tts) ==> ttKey(tts[j]) in its.Map && newAt(its, tts, j).timedType == tts[j] && !old(inList(its, newAt(its, tts, j)))
+//@   ensures[after-anchor]    result == nil ==> forall n *orderedNode :: {n.$list} inList(its, n) && !old(inList(its, n)) ==> on(its.Map[keyOf(pos)]).$pos < n.$pos
+//@   ensures[newest-first]    result == nil ==> forall m *orderedNode, n *orderedNode :: {m.$pos, n.$list} old(inList(its, m)) && inList(its, n) && !old(inList(its, n)) && on(its.Map[keyOf(pos)]).$pos < m.$pos && m.$pos < n.$pos ==> tsLess(tnAs(tts[0]).T, m.O)
+//@   ensures[stops-at-older]  result == nil ==> forall n *orderedNode :: {n.$list} inList(its, n) && !old(inList(its, n)) ==> n.next == nil || (inList(its, on(n.next)) && !old(inList(its, on(n.next)))) || !tsLess(tnAs(tts[0]).T, on(n.next).O)
+//@   ensures[not-found-changes-nothing] result != nil ==> its.size == old(its.size) && (forall n *orderedNode :: {n.$list} n.$list == old(n.$list) && n.next == old(n.next))
+//@   modifies listSnapshot.size, map[string]orderedType, orderedNode.next, orderedNode.prev, orderedNode.$list, orderedNode.$pos, orderedNode.$key, alloc
